@@ -275,10 +275,12 @@ pub const P_GATE: Profile = Profile { name: "gate", nq: (2, 3), callers: (2, 3),
 /// Panic scenarios (C15): object 0 panics in a chosen runner context; afterwards every attempt on it must fail loudly and
 /// the healthy objects 1.. must stay fully usable. Ordering constraints are scripted with events, fine interleaving is left open.
 pub fn generate_panic(r: &mut Rng) -> Program {
-    let ctxk = r.below(5);
+    // contexts 5 and 6: the operation that panics is the future of a future_sync, which runs on the task polling the returned future
+    let ctx7 = r.below(7);
+    let ctxk = if ctx7 >= 5 { ctx7 - 5 + 10 } else { ctx7 };
     let pool = 1 + r.below(3);
     // context 4 parks EVERY pool thread on a gate, one gated job per object (objects 1..=pool), so that only callers can run object 0
-    let (h0, nq) = if ctxk >= 4 { (pool + 1, pool + 3) } else { (1, 3) };
+    let (h0, nq) = if ctxk == 4 { (pool + 1, pool + 3) } else { (1, 3) };
     let healthy = |r: &mut Rng, n: usize| -> Vec<Op> {
         (0..n).map(|_| { let q = h0 + r.below(2); match r.below(4) { 0 => Op::Sync(q, vec![Prim::Touch]), 1 => Op::TrySync(q, vec![Prim::Touch]), 2 => Op::FutDesync(q, vec![Prim::Touch], Mode::Await), _ => Op::Desync(q, vec![Prim::Touch]) } }).collect()
     };
@@ -290,6 +292,8 @@ pub fn generate_panic(r: &mut Rng) -> Program {
         1 => { c0.push(Op::Sync(0, vec![Prim::Touch, Prim::Panic])); }                                    // sync caller, immediate
         2 => { c0.push(Op::FutDesync(0, vec![Prim::Touch, Prim::Panic], Mode::Await)); }                  // polling task or pool thread
         3 => { c0.push(Op::FutDesync(0, vec![Prim::Touch, Prim::AwaitEv(0), Prim::Panic], Mode::Detach)); c0.push(Op::Fire(0)); nev = 1; }  // after a suspension
+        10 => { c0.push(Op::FutSync(0, vec![Prim::Touch, Prim::Panic], Mode::Await)); }                   // future_sync: its future panics at once, on the polling task
+        11 => { c0.push(Op::FutSync(0, vec![Prim::Touch, Prim::AwaitEv(0), Prim::Touch, Prim::Panic], Mode::Await)); nev = 1; others.push(vec![Op::Yield(5), Op::Fire(0)]); }  // ... after a suspension
         _ => {
             // drain / steal: a sync caller holds object 0 while the panicking job is queued behind it; a second sync caller arrives
             // after that and is the one that runs it (by draining a Pending queue, or by stealing it when it is notified)
@@ -303,12 +307,12 @@ pub fn generate_panic(r: &mut Rng) -> Program {
     }
     c0.push(Op::AwaitUnwind);
     c0.push(Op::ExpectPanic(0));
-    if ctxk >= 4 { for g in 0..pool { c0.push(Op::Open(g)); } }
+    if ctxk == 4 { for g in 0..pool { c0.push(Op::Open(g)); } }
     let n1 = 2 + r.below(3); let h = healthy(r, n1); c0.extend(h);
     let mut callers = vec![c0];
     callers.extend(others);
     let mut hc = vec![Op::AwaitUnwind]; let n2 = 1 + r.below(3); hc.extend(healthy(r, n2));
-    if ctxk < 4 { callers.push(hc); }
+    if ctxk != 4 { callers.push(hc); }
     Program { nq, pool, nev, ngates, callers }
 }
 
